@@ -373,6 +373,28 @@ def r204(ctx, classes):
                     bad = f"{short(df.stmt, 60) if df.stmt is not None else df.kind} reaches the wrap"
             else:
                 bad = f"the wrapped expression is {short(d, 50)}"
+            # the wrap is taken whenever the parameter is periodic and a box is known: it decides per axis
+            # itself, so no other condition (a pre-test on the vector) may stand between the two
+            for ge, gt, gbn in cfg.guards(at):
+                gtxt = ast.unparse(ge)
+                names = {x.attr for x in ast.walk(ge) if isinstance(x, ast.Attribute)} | {x.id for x in ast.walk(ge) if isinstance(x, ast.Name)}
+                if names & {"periodic", "box"} and not any(isinstance(x, ast.Call) for x in ast.walk(ge)) and not (names - {"periodic", "box", "self", "system", "None"}):
+                    continue
+                dn = {x.id for x in ast.walk(d) if isinstance(x, ast.Name)} if d is not None else set()
+                # exact per-axis pre-test: any(|d| > L/2) - false means no axis would be wrapped anyway
+                if gt and isinstance(ge, ast.Call) and last_name(ge) == "any" and len(ge.args) == 1 and isinstance(ge.args[0], ast.Compare) and len(ge.args[0].ops) == 1 and isinstance(ge.args[0].ops[0], (ast.Gt, ast.Lt)):
+                    l_, r_ = ge.args[0].left, ge.args[0].comparators[0]
+                    if isinstance(ge.args[0].ops[0], ast.Lt):
+                        l_, r_ = r_, l_
+                    half = ast.unparse(r_).replace(" ", "")
+                    bx = ast.unparse(kwarg(call, "box_lengths", 1)).replace(" ", "") if kwarg(call, "box_lengths", 1) is not None else "?"
+                    if isinstance(l_, ast.Call) and last_name(l_) in ("abs", "absolute", "fabs") and l_.args and ast.unparse(l_.args[0]) == ast.unparse(d) and half in (f"0.5*{bx}", f"{bx}*0.5", f"{bx}/2", f"{bx}/2.0"):
+                        continue
+                if dn & names or any(isinstance(x, ast.Call) and any(isinstance(a_, ast.Name) and a_.id in dn for a_ in x.args) for x in ast.walk(ge)):
+                    ctx.bad(rid, call, f"{name}.calculate takes the minimum-image wrap only when `{gtxt}` holds - a test on the pair vector as a whole: pbc_dist_coordinate wraps each axis whose own component exceeds half that axis' length, so a pre-test on the whole vector (its norm against the half diagonal, any(), a sum) skips pairs that straddle one box face - the value then depends on the image an atom is stored in and changes under a shift by a box vector",
+                            construct=f"{name}: wrap behind a whole-vector pre-test")
+                    bad = None
+                    break
             if bad:
                 ctx.bad(rid, call, f"{name}.calculate applies the periodic minimum-image wrap to a vector that is no longer the raw difference of two positions ({bad}): "
                         "a rescaled/normalised vector is never wrapped, so the value depends on which periodic image an atom is stored in", construct=short(call, 70))
@@ -832,6 +854,7 @@ def run(ctx):
 
 
 VARIANTS = [
+    B("c20-wrap-behind-a-norm-pre-test", ORDERP, "            box = np.array(system.box[:3])\n            delta = pbc_dist_coordinate(delta, box)\n        lamb = np.sqrt(np.dot(delta, delta))\n        return [lamb]", "            box = np.array(system.box[:3])\n            if np.dot(delta, delta) > np.dot(0.5 * box, 0.5 * box):\n                delta = pbc_dist_coordinate(delta, box)\n        lamb = np.sqrt(np.dot(delta, delta))\n        return [lamb]", "R-20.4", control=True, why="seeded C20_o (inlined)"),
     B("c20-wrap-folds-with-the-truncating-remainder", ORDERP, "    box_ilengths = 1.0 / box_lengths\n    pbcdist = np.zeros(distance.shape)\n    for i, (length, ilength) in enumerate(zip(box_lengths, box_ilengths)):\n        if np.abs(distance[i]) > 0.5 * length:\n            pbcdist[i] = distance[i] - np.rint(distance[i] * ilength) * length\n", "    pbcdist = np.zeros(distance.shape)\n    for i, length in enumerate(box_lengths):\n        half = 0.5 * length\n        if np.abs(distance[i]) > half:\n            pbcdist[i] = np.fmod(distance[i] + half, length) - half\n", "R-20.7", control=True, why="seeded C20_n"),
     K("c20-keep-wrap-folds-with-the-floored-remainder", ORDERP, "    box_ilengths = 1.0 / box_lengths\n    pbcdist = np.zeros(distance.shape)\n    for i, (length, ilength) in enumerate(zip(box_lengths, box_ilengths)):\n        if np.abs(distance[i]) > 0.5 * length:\n            pbcdist[i] = distance[i] - np.rint(distance[i] * ilength) * length\n", "    pbcdist = np.zeros(distance.shape)\n    for i, length in enumerate(box_lengths):\n        half = 0.5 * length\n        if np.abs(distance[i]) > half:\n            pbcdist[i] = np.mod(distance[i] + half, length) - half\n", why="mod(d + L/2, L) - L/2 = d - floor(d/L + 1/2) L: periodic, differs from the rint form only exactly on the half-box boundary"),
     B("c20-puckering-centre-without-axis", ORDERP, "        center = np.mean(pos, axis=0)", "        center = np.mean(pos)", "R-20.8", control=True, why="seeded C20_m"),
